@@ -398,3 +398,75 @@ def node_notifications(ctx):
         so.prove_inv('*:node-notifications')
         return
     raise_ = None
+
+
+# ------------------------------------------------------------------------------------------------ the tick as a whole: orchestration
+@unit(name='tick.orchestration', relpath=MOD, qual=['SyncObj._onTick'], props=['C06', 'C01', 'C09', 'C02'],
+      cases=[dict(role=0), dict(role=2)],
+      doc='_onTick as a sequence of calls (callee contracts as summaries that record the call): a dump file is loaded at most once, on the '
+          'first ready tick, with clearJournal=False and before anything is applied (O6.3); committed entries are applied on every tick; '
+          'append_entries are sent only by a leader; submissions are dispatched and compaction is tried once per tick; the journal\'s '
+          'one-second timer is driven',
+      assumptions=['X8: cut before self._poller.poll', 'A-CLOCK'],
+      canaries=[('load-clears-journal', lambda mod: mutate_function(mod, 'SyncObj._onTick', _mut_load_clears), ['O6.3.start-up-load-keeps-the-journal'])])
+def tick_orchestration(ctx, role):
+    so = SO(ctx, min(UNIVERSE(), 3))
+    so.assume_inv()
+    ctx.assume(so.get('raftState') == role)
+    if role == 0:
+        # no election due in this tick (the election block is unit tick.election)
+        ctx.assume(so.get('raftElectionDeadline') > so.now + 1000000)
+    c = ctx.cell(so.selfref)
+    need = FreshBool('needLoadDumpFile')
+    ctx.setcell(so.selfref, c.with_field(F('needLoadDumpFile'), need).with_field(F('onTickCallbacks'), ctx.alloc(PList([])))
+                .with_field(F('onTickCallbacksLock'), ctx.alloc(PObj('Lock', {}))))
+    ev = []
+    isfile = FreshBool('dumpFileExists')
+
+    def rec(name, ret=None):
+        def f(I, selfv, a, k):
+            ev.append((name, tuple(a), dict(k)))
+            return ret(I) if callable(ret) else ret
+        return f
+    reg = dict(SUMMARIES)
+    reg.update({'SyncObj.__loadDumpFile': rec('loadDumpFile', True), 'SyncObj.__applyLogEntries': rec('applyLogEntries', lambda I: FreshBool('needSend')),
+                'SyncObj.__sendAppendEntries': rec('sendAppendEntries'), 'SyncObj._checkCommandsToApply': rec('checkCommandsToApply'),
+                'SyncObj.__tryLogCompaction': rec('tryLogCompaction'), 'Poller.poll': rec('poll'), 'Transport.tryGetReady': rec('tryGetReady')})
+    old = so.snapshot()
+    loops = {'SyncObj._onTick': loop_table(so.mod, 'SyncObj._onTick', {1: _commit_loop_spec(so, old)})}
+    I = make_interp(ctx, so, registry=reg, loops=loops, inline={'SyncObj.__onBecomeLeader', 'SyncObj.__onLeaderChanged'},
+                    externals={'os.path.isfile': lambda I_, a, k: isfile})
+    kind, v = run_method(I, so, 'SyncObj._onTick', [0.0])
+    ctx.prove(kind == 'ok', 'C01+C06:tick.no-exception', info=getattr(v, 'typ', None))
+    if kind != 'ok':
+        return
+    names = [e[0] for e in ev]
+    loads = [e for e in ev if e[0] == 'loadDumpFile']
+    has_dump = Not(so.conf('fullDumpFile').isnone)
+    want_load = And(need, has_dump, isfile)
+    ctx.prove(len(loads) <= 1, 'C06:O6.3.dump-loaded-at-most-once-per-tick')
+    if loads:
+        ctx.prove(want_load, 'C06+C09:O6.3.dump-loaded-only-on-the-first-ready-tick')
+        ctx.prove(loads[0][2].get('clearJournal', loads[0][1][0] if loads[0][1] else None) is False, 'C06:O6.3.start-up-load-keeps-the-journal')
+        ctx.prove(names.index('loadDumpFile') < names.index('applyLogEntries') if 'applyLogEntries' in names else False, 'C06+C01:O6.3.dump-loaded-before-anything-is-applied')
+    else:
+        ctx.prove(Not(want_load), 'C06+C09:O6.3.existing-dump-is-loaded-on-the-first-ready-tick')
+    ctx.prove(Eq(so.get('needLoadDumpFile'), False), 'C06:O6.3.load-flag-cleared')
+    ctx.prove(names.count('applyLogEntries') == 1, 'C01:tick.committed-entries-applied-every-tick')
+    ctx.prove(names.count('checkCommandsToApply') == 1 and names.count('tryLogCompaction') == 1, 'C02+C09:tick.submissions-and-compaction-once-per-tick')
+    sends = [e for e in ev if e[0] == 'sendAppendEntries']
+    if sends:
+        ctx.prove(old.get('raftState') == 2, 'C01+C18:tick.only-a-leader-sends-append_entries')
+    timer = [op for op in ctx.glist('log_ops') if op[0] == 'timer']
+    ctx.prove(len(timer) <= 1, 'C04:tick.timer-at-most-once')
+
+
+def _mut_load_clears(fn):
+    cnt = 0
+    for n in ast.walk(fn):
+        if isinstance(n, ast.Call) and isinstance(n.func, ast.Attribute) and n.func.attr == '__loadDumpFile':
+            for k in n.keywords:
+                if k.arg == 'clearJournal':
+                    k.value = ast.Constant(value=True)
+                    cnt += 1
+    return cnt
